@@ -10,13 +10,13 @@ for d in seeded/S*; do
   if [ $# -gt 0 ]; then case " $* " in *" $id "*) ;; *) continue;; esac; fi
   prop=$(python3 -c "import json;print(json.load(open('$d/meta.json'))['breaks_property'])")
   pf=$d/patch.diff; [ -f $d/patch-rebased.diff ] && pf=$d/patch-rebased.diff
-  git -C $repo checkout -q -- . ; git -C $repo reset -q
+  git -C $repo reset -q --hard
   if ! git -C $repo apply --3way $(pwd)/$pf >/dev/null 2>&1; then
-    echo "$id $prop APPLY-FAILED"; git -C $repo checkout -q -- . ; git -C $repo reset -q; continue
+    echo "$id $prop APPLY-FAILED"; git -C $repo reset -q --hard; continue
   fi
   out=$(VERIF_NO_EVIDENCE=1 ./check $prop --tier quick 2>&1); rc=$?
   sig=$(echo "$out" | grep "^  #" | head -1 | cut -c1-110)
   if [ $rc -eq 1 ]; then echo "$id $prop caught $sig"; else echo "$id $prop NOT-CAUGHT rc=$rc"; fi
-  git -C $repo reset -q; git -C $repo checkout -q -- .
+  git -C $repo reset -q --hard
 done
 rm -rf replays/mutant-found
